@@ -826,7 +826,8 @@ Definition totp_confirm_post : M unit :=
       else
         codes <- generate_recovery_codes ;;
         crypted <- bcrypt_codes codes ;;
-        let u' := u <| u_totp := secret |> <| u_recovery := encode_codes crypted |> <| u_totp_last := code |> in
+        let u' := u <| u_totp := secret |> <| u_recovery := encode_codes crypted |>
+                   <| u_totp_last := (if c_onetime cfg then code else u_totp_last u) |> in
         store_back u' shared ;;;
         st_save u' ;;;
         del_session k_totp_secret ;;; del_session k_2fa_authed ;;;
@@ -866,11 +867,15 @@ Definition totp_validate : M (user * bool * option tstatus) :=
     end
   else
     let input := aget f_code vals in
-    if beqb (u_totp_last u) input then ret (u, shared, Some TRepeated) else
-    let u' := u <| u_totp_last := input |> in
-    store_back u' shared ;;;
-    if negb (totp_ok (u_totp u) input) then ret (u', shared, Some TInvalid)
-    else ret (u', shared, Some TSuccess).
+    if c_onetime cfg then
+      (if beqb (u_totp_last u) input then ret (u, shared, Some TRepeated) else
+       let u' := u <| u_totp_last := input |> in
+       store_back u' shared ;;;
+       if negb (totp_ok (u_totp u) input) then ret (u', shared, Some TInvalid)
+       else ret (u', shared, Some TSuccess))
+    else
+      (if negb (totp_ok (u_totp u) input) then ret (u, shared, Some TInvalid)
+       else ret (u, shared, Some TSuccess)).
 
 Definition totp_remove_post : M unit :=
   r <- totp_validate ;;
@@ -894,7 +899,7 @@ Definition totp_validate_post : M unit :=
   match st with
   | None => log [u_pid u] ;;; respond (bs "totp2fa_validate") d_err
   | Some TSuccess =>
-      st_save u ;;;
+      (if c_onetime cfg then st_save u else ret tt) ;;;      (* totp.go:395: only UserOneTime users are saved here *)
       set_cuser u ;;;
       handled <- fire EvBeforeAuth false ;;
       if handled then ret tt else
